@@ -604,6 +604,24 @@ def run_typestate(F, R, M, sg, b, add_ids, sn_ids, wait_ids, own_new, idxmap):
         fields = [p for p in q[1:] if isinstance(p, str)]
         if adt in (M.queue_adt, M.owning_adt) and q and q[0].startswith('self'):
             return ('own', q)
+        # follow the field chain through the struct types: self.inner.rx_queue -> (type of `inner`, 'rx_queue')
+        cur = adt
+        if q and q[0] == 'local' and len(q) > 2 and isinstance(q[1], int) and isinstance(q[2], int):
+            try:
+                lt = sg.ctxs[q[1]].fn['locals'][q[2]]['ty'].lstrip('&').replace('mut ', '')
+                cur = lt.split('<', 1)[0]
+            except (IndexError, KeyError):
+                pass
+        for f_ in fields:
+            if cur and (cur, f_) in idxmap:
+                return idxmap[(cur, f_)]
+            nxt = None
+            if cur in F.adts and F.adts[cur].get('variants'):
+                for fd in F.adts[cur]['variants'][0]['fields']:
+                    if fd['name'] == f_:
+                        ty = fd['ty'].lstrip('&').replace('mut ', '')
+                        nxt = ty.split('<', 1)[0]
+            cur = nxt
         for f_ in reversed(fields):
             if adt and (adt, f_) in idxmap:
                 return idxmap[(adt, f_)]
